@@ -156,6 +156,11 @@ func (el *eventloop) enroll(c net.Conn, addr net.Addr, ctx any) (resCh chan Regi
 			sockAddr unix.Sockaddr
 			gc       *conn
 		)
+		defer func() {
+			if gc == nil { // no connection has taken over the duplicated fd
+				unix.Close(dupFD) //nolint:errcheck
+			}
+		}()
 		switch c.(type) {
 		case *net.UnixConn:
 			sockAddr, _, _, err = socket.GetUnixSockAddr(c.RemoteAddr().Network(), c.RemoteAddr().String())
